@@ -10,6 +10,7 @@
 import FP.Model.Compare
 import FP.Lemmas.Compare
 import FP.Lemmas.Dec
+import FP.Model.LayoutPrec
 namespace FP.Props.C05
 open FP FP.Model FP.Lemmas
 
@@ -270,5 +271,15 @@ theorem int_dec_eq (i : Int) (d : Dec) (hd : d.exp ≤ 0) :
 example : collTryEqual [.complex "A", .complex "B"] [.complex "A", .complex "C"] = (false, true) := by decide
 example : eqExpr false [.prim (.int 1)] [.prim (.dec ⟨100, -2⟩)] = [true] := by decide
 example : cmpExpr .lt [some (.int 1)] [some (.dec ⟨15, -1⟩)] = .ok [true] := by decide
+
+open FP.Gen.Layouts in
+/-- THE PRECISION TABLES ARE THE LAYOUTS' OWN: every entry of the regenerated `dateMap`, `dateTimeMap` and `timeMap`
+    — which decide when two values have "the same precision" and when a comparison is empty — gives its layout the
+    precision the layout's text has, with or without an offset.  (The comparison model reads these tables, so a wrong
+    entry would move model and implementation together; this is what notices it.) -/
+theorem precision_tables_are_the_layouts :
+    dateMap.all (fun p => p.2 == Text.impliedPrecision (Text.goLayout p.1.toList)) = true ∧
+    dateTimeMap.all (fun p => p.2 == Text.impliedPrecision (Text.goLayout p.1.toList)) = true ∧
+    timeMap.all (fun p => p.2 + 3 == Text.impliedPrecision (Text.goLayout p.1.toList)) = true := by decide +kernel
 
 end FP.Props.C05
